@@ -6,6 +6,7 @@ import (
 	"os"
 
 	"verifharness/drv/cf"
+	"verifharness/drv/ec"
 	"verifharness/drv/fr"
 	"verifharness/drv/frl"
 	"verifharness/drv/fwd"
@@ -42,6 +43,8 @@ func main() {
 		os.Exit(frl.Main(os.Args[2:]))
 	case "pk":
 		os.Exit(pk.Main(os.Args[2:]))
+	case "ec":
+		os.Exit(ec.Main(os.Args[2:]))
 	case "hb":
 		os.Exit(hb.Main(os.Args[2:]))
 	default:
